@@ -631,6 +631,11 @@ def constructor_catalogue():
     items.append(("DailyModel(settings={'developer_mode': True, 'cvrmse_threshold': 2})", lambda: DailyModel(settings={"developer_mode": True, "silent_developer_mode": True, "cvrmse_threshold": 2}), "accept"))
     items.append(("BillingModel(settings={'segment_minimum_count': 5})", lambda: BillingModel(settings={"segment_minimum_count": 5}), "reject"))
     items.append(("DailyModel(model='legacy', settings={'allow_smooth_model': True})", lambda: DailyModel(model="legacy", settings={"allow_smooth_model": True}), "reject"))
+    # key/value normalisation reaches strings inside list-typed fields (the option lists of the calendar maps)
+    for key, cls in DAILY_CLASSES.items():
+        items.append((f"{cls.__name__}(weekday_weekend={{'options': ['Weekday', 'Weekend']}})", (lambda c: lambda: _expect_equal(c(weekday_weekend={"options": ["Weekday", "Weekend"]}), c()))(cls), "accept"))
+        items.append((f"{cls.__name__}(season={{'OPTIONS': ['Summer', 'Shoulder ', 'Winter'], 'MAY': 'Summer '}})",
+                      (lambda c: lambda: _expect_equal(c(season={"OPTIONS": ["Summer", "Shoulder ", "Winter"], "MAY": "Summer "}), c(season={"may": "summer"})))(cls), "accept"))
     # the update helper validates like a constructor: developer-only fields stay locked, values are checked
     for key, cls in DAILY_CLASSES.items():
         if cls.__name__ == "BillingSettings":
@@ -652,6 +657,12 @@ def constructor_catalogue():
         for scls in DAILY_CLASSES.values():
             items.append((f"{mname} with settings={scls.__name__}() object", (lambda mk, sc, oc: lambda: _expect_approved(mk(sc()), oc))(mk_model, scls, own_cls), "accept"))
     return items
+
+
+def _expect_equal(a, b):
+    if a.model_dump() != b.model_dump():
+        raise AssertionError("spelling variant of an option list gives other settings than the plain spelling")
+    return a
 
 
 def _expect_value(obj, k, a):
@@ -688,6 +699,37 @@ def run_constructors(case):
     ok = d["cvrmse_threshold"] == 2 and d["season"]["january"] == "summer" and d["developer_mode"] is True
     m2 = DailyModel(settings=d)
     ok = ok and m2.settings.model_dump() == d
+    # ... also through a fit: what _fit records in the stored parameters are the settings of the model object, None values included
+    from . import c04 as _c04
+    import types as _t
+    from opendsm.eemeter.models.daily.parameters import ModelCoefficients
+    from opendsm.eemeter.models.billing.model import BillingModel as _BM
+    profiles = [("DailyModel()", lambda: DailyModel()), ("DailyModel(model='legacy')", lambda: DailyModel(model="legacy")), ("BillingModel()", lambda: _BM()),
+                ("DailyModel(developer profile with None fields)", lambda: DailyModel(settings={"developer_mode": True, "silent_developer_mode": True, "alpha_final_type": None, "final_bounds_scalar": None}))]
+    for pname, mk in profiles:
+        mm = mk()
+        mm._initialize_data = lambda md: (md, None)
+        mm._combinations = lambda: ["fw-su_sh_wi"]
+        mm._components = lambda: ["fw-su_sh_wi"]
+        comp = _t.SimpleNamespace(wSSE=1.0, N=4, resid=np.array([0.5, -0.5, 0.5, -0.5]), obs=np.array([0.5, 1.5, 0.5, 1.5]))
+        mm._fit_components = lambda: {"fw-su_sh_wi": comp}
+        mm._best_combination = lambda print_out=False: "fw-su_sh_wi"
+        sub = _t.SimpleNamespace(T_min=0.0, T_max=100.0, T_min_seg=5.0, T_max_seg=95.0, f_unc=1.0, named_coeffs=ModelCoefficients(model_type="tidd", intercept=10.0))
+        mm._final_fit = lambda combo: {"fw-su_sh_wi": sub}
+        fam = "billing" if isinstance(mm, _BM) else "daily"
+        mm.fit(_c04.pick_data(fam, "baseline", 0, "US/Pacific"), ignore_disqualification=True)
+        stored = json.loads(json.dumps(mm.to_dict()["settings"], default=str))
+        own = json.loads(json.dumps(mm.settings.model_dump(), default=str))
+        for k in ("developer_mode", "silent_developer_mode"):  # to_dict marks legacy/billing values as overrides so that they reload
+            own.pop(k, None), stored.pop(k, None)
+        back = type(mm).from_dict(mm.to_dict())
+        again = json.loads(json.dumps(back.settings.model_dump(), default=str))
+        again.pop("developer_mode", None), again.pop("silent_developer_mode", None)
+        ok2 = stored == own and again == stored
+        label2 = "the settings recorded in a stored model are the ones the model was built with (through fit, None values included)"
+        if not case.ground(ok2, label2):
+            missing = sorted(set(own) - set(stored)) + [f"split_selection.{k}" for k in set(own.get("split_selection", {})) - set(stored.get("split_selection", {}))]
+            case.violation(label2, "note", dict(profile=pname, missing=missing), f"{pname}: stored settings differ from the model's (fields missing from the stored form: {missing})")
     if not case.ground(ok, "settings dump -> constructor round trip keeps the settings the model was built with"):
         case.violation("settings dump -> constructor round trip keeps the settings the model was built with", "note", dict(dump=str(d)[:300]), "")
 
